@@ -399,15 +399,17 @@ def mutate_grammar(rng, gram, focus=()):
         pref = [r for r in commons if r["name"] in focus]
         r = rng.choice(pref) if pref and rng.chance(0.7) else rng.choice(commons)
         el = r["elems"]
-        idxs = [i for i, e in enumerate(el) if e["k"] in ("cont", "ref", "prim", "flag") and not e.get("bare")]
+        idxs = [i for i, e in enumerate(el) if e["k"] in ("cont", "mcont", "ref", "prim", "flag") and not e.get("bare")]
         conts = [i for i in idxs if el[i]["k"] == "cont"]
+        mconts = [i for i in idxs if el[i]["k"] == "mcont"]
         refs = [i for i in idxs if el[i]["k"] == "ref"]
         lo = 1 + max((i for i, e in enumerate(el) if e["k"] in ("name",) or (e["k"] == "kw" and e["v"] == r["kw"])),
                      default=0)
         hi = len(el) - (1 if el and el[-1].get("bare") and el[-1].get("attr") == "tail" else 0)
         op = rng.weighted([("c2r", 4 if conts else 0), ("r2c", 4 if refs and targets else 0),
                            ("add", 3 if targets else 0), ("drop", 2 if idxs else 0), ("mult", 2 if conts else 0),
-                           ("swap", 1 if len(idxs) >= 2 else 0), ("addref", 1 if targets else 0)])
+                           ("swap", 1 if len(idxs) >= 2 else 0), ("addref", 1 if targets else 0),
+                           ("retype", 3 if mconts else 0)])
         if op == "c2r":
             i = rng.choice(conts)
             e = el[i]
@@ -437,6 +439,19 @@ def mutate_grammar(rng, gram, focus=()):
         elif op == "mult":
             i = rng.choice(conts)
             el[i] = dict(el[i], mult=rng.choice([m for m, _ in CONT_MULTS if m != el[i]["mult"]]))
+        elif op == "retype":
+            # a multi-typed attribute that has one type in the other version of the language (same name)
+            i = rng.choice(mconts)
+            e = el[i]
+            objs = [a for a in e["alts"] if a["t"] in targets] or e["alts"]
+            a = rng.choice(objs)
+            if a["t"] in targets:
+                m = {"choice": "one", "choiceopt": "opt", "choicerep": "rep", "seq": "twice",
+                     "lists": "star", "choicelists": "plus"}[e["form"]]
+                el[i] = {"k": "cont", "attr": e["attr"], "target": a["t"], "mult": m, "kw": a["kw"], "kw2": kw.new(),
+                         "open": a["open"], "close": a["close"], "sep": a.get("sep") or ","}
+            else:
+                del el[i]
         elif op == "swap":
             i, j = rng.sample(idxs, 2)
             el[i], el[j] = el[j], el[i]
@@ -543,6 +558,9 @@ def gen_history(rng, gram, tree, gen_queries):
     elif kind == "independent":
         for _ in range(rng.randint(1, 2)):
             g = G.gen_grammar(rng, want_traits=True, p_user=0.0)
+            side = type(rng)(f"{rng.s}:multi")
+            if side.chance(0.3):
+                G.multi_type(side, g)
             copy_user_spec(gram, g)
             hist.append(step(g, False, share=rng.chance(0.6), drop=rng.chance(0.3), defer=rng.chance(0.2)))
     elif kind == "samegram":
